@@ -796,7 +796,7 @@ def _rand_history(rng, big):
                 conf = None
             if pa == "synced":
                 conf = None
-            mode = 0 if kind == "rec" else rng.choice([0, 0, 1, 2, 3])
+            mode = 0 if kind == "rec" else rng.choice([0, 0, 1, 2, 3, 4])
             ops.append(["render", o, conf, rng.random() < 0.2, pa, mode])
     return {"fts": fts, "objs": objs, "ops": ops}
 
@@ -1114,7 +1114,7 @@ def _threshold_case(rng, what=None):
         ops += [["newconf", 2, rng.random() < 0.5, _all_colours(rng)], ["setglobal", 2]]
     plan = []
     for o in range(len(objs)):
-        mode = lambda: 0 if objs[o]["k"] == "rec" else rng.choice([0, 0, 1, 2, 3])
+        mode = lambda: 0 if objs[o]["k"] == "rec" else rng.choice([0, 0, 1, 2, 3, 4])
         plan += [["render", o, 0, False, "none", mode()], ["render", o, 0, True, "none", mode()], ["render", o, 1, False, "none", mode()]]
         if rng.random() < 0.3:
             plan.append(["render", o, None, False, ["obj", 0], mode()])
@@ -1188,11 +1188,11 @@ def _sibling_case(rng):
     for o in order + [rng.choice(order)]:
         r = rng.random()
         if r < 0.7:
-            ops.append(["render", o, rng.choice([0, 0, 1]), rng.random() < 0.3, "none", rng.choice([0, 0, 1, 2, 3])])
+            ops.append(["render", o, rng.choice([0, 0, 1]), rng.random() < 0.3, "none", rng.choice([0, 0, 1, 2, 3, 4])])
         else:
             ops += [["make", nh, o, rng.choice([0, 1]), rng.random() < 0.3, "none"], ["next", nh, rng.choice([2, 400])]]
             if rng.random() < 0.5:
-                ops.append(["whole", nh, rng.choice([0, 1])])
+                ops.append(["whole", nh, rng.choice([0, 1, 4])])
             nh += 1
     case = {"fts": fts, "objs": objs, "ops": ops, "shr": 1}
     if use_tmpl:
@@ -1481,6 +1481,36 @@ def _titles_case(rng):
     return case
 
 
+def _enumwidth_case(rng):
+    """ONE enum field type, two or three tables whose enum column has DIFFERENT explicit widths (wide first, narrow later and the
+    other way round), every modifier: the cells of an enum value are cached per palette object inside the field type -- a cell that
+    was padded / truncated for one width must not come back for another"""
+    names = ["x", "New", "Active", "Blocked", "Waiting for it"]
+    vals = rng.sample([1, 2, 3, 10, 20, 300, "A", "BB"], rng.randrange(2, 5))
+    ft = {"values": [[v, rng.choice(names), rng.choice([None, "name_good", "name_warn", "error"])] for v in vals],
+          "missing": rng.choice([None, None, ["<?>", "error"]])}
+    mod = rng.choice(["", "/full", "/full", "/val", "/name", "/name"])
+    # most widths are at or above the longest cell (mvl + 1 + name): a narrower column truncates whatever the cell was before
+    L = max(len(str(v)) for v in vals) + 1 + max(len(r[1]) for r in ft["values"])
+    widths = [str(x) for x in rng.sample([L, L + 1, L + 3, L + 8, L + 15], 3)]
+    if rng.random() < 0.25:
+        widths[rng.randrange(3)] = rng.choice(["2-40", str(max(L - 2, 1)), "3"])
+    objs = []
+    pool = vals + [None, 77]
+    recs = [[rng.choice(pool), rng.randrange(100)] for _ in range(rng.randrange(1, 4))]
+    for i in range(rng.randrange(2, 4)):
+        m = mod if rng.random() < 0.8 else rng.choice(["", "/full", "/val", "/name"])
+        objs.append({"k": "table", "fields": ["st", "id"], "ft": {"st": 0}, "fmt": f"st{m}:{widths[i]},id",
+                     "recs": recs if rng.random() < 0.85 else [[rng.choice(pool), rng.randrange(100)] for _ in range(rng.randrange(1, 4))],
+                     "header": None, "footer": rng.choice([None, ""]), "titles": None})
+    ops = [["newconf", 0, False, rng.choice([{}, _all_colours(rng)])], ["newconf", 1, rng.random() < 0.3, _all_colours(rng)]]
+    order = list(range(len(objs))) * 2
+    rng.shuffle(order)
+    for o in order:
+        ops.append(["render", o, rng.choice([0, 0, 0, 0, 0, 1]), rng.random() < 0.12, "none", rng.choice([0, 0, 1])])
+    return {"fts": [ft], "objs": objs, "ops": ops, "ew": 1}
+
+
 def _notes_case(rng):
     """console help for a class whose _get_hdoc_method_notes() hook returns ready BoundMethodNotes objects (class attributes,
     shared by all methods / objects / calls), or fresh ones, or both; help for objects with and without a token, for their
@@ -1555,18 +1585,19 @@ def gen_cases(rng, tier):
     cases += [_help_case(rng) for _ in range(160 if big else 12)]
     cases += [_titles_case(rng) for _ in range(300 if big else 36)]
     cases += [_notes_case(rng) for _ in range(200 if big else 24)]
+    cases += [_enumwidth_case(rng) for _ in range(160 if big else 16)]
     cases += [_hunt_case(rng) for _ in range(12 if big else 3)]
     return cases
 
 
 def search_cases(rng, tier):
-    return [_titles_case(rng) for _ in range(100)] + [_notes_case(rng) for _ in range(60)] + [_sibling_case(rng) for _ in range(80)] + [_interleave_case(rng) for _ in range(120)] + [_threshold_case(rng) for _ in range(240)] + [_hunt_case(rng) for _ in range(30)] + [_reg_case(rng) for _ in range(60)] + [_synced_case(rng) for _ in range(60)] + [_alias_case(rng) for _ in range(120)] + [_help_case(rng) for _ in range(60)] + [_rand_history(rng, True) for _ in range(600)]
+    return [_titles_case(rng) for _ in range(100)] + [_notes_case(rng) for _ in range(60)] + [_enumwidth_case(rng) for _ in range(60)] + [_sibling_case(rng) for _ in range(80)] + [_interleave_case(rng) for _ in range(120)] + [_threshold_case(rng) for _ in range(240)] + [_hunt_case(rng) for _ in range(30)] + [_reg_case(rng) for _ in range(60)] + [_synced_case(rng) for _ in range(60)] + [_alias_case(rng) for _ in range(120)] + [_help_case(rng) for _ in range(60)] + [_rand_history(rng, True) for _ in range(600)]
 
 
 def kind(case):
     if case.get("hunt"):
         return "hunt"
-    return ("threshold:" if case.get("thr") else "") + ("shared/lazy:" if case.get("shr") else "") + ("equal-values:" if case.get("alias") else "") + ("outliving-help:" if case.get("hlp") else "") + ("titles/re-format:" if case.get("ttl") else "") + ("shared-notes:" if case.get("nts") else "") + "+".join(sorted({o["k"] for o in case["objs"]}))
+    return ("threshold:" if case.get("thr") else "") + ("shared/lazy:" if case.get("shr") else "") + ("equal-values:" if case.get("alias") else "") + ("outliving-help:" if case.get("hlp") else "") + ("titles/re-format:" if case.get("ttl") else "") + ("shared-notes:" if case.get("nts") else "") + ("enum-widths:" if case.get("ew") else "") + "+".join(sorted({o["k"] for o in case["objs"]}))
 
 
 # ====================================================================== implementation side
@@ -1817,6 +1848,12 @@ class _World:
         for i, s in enumerate(case["objs"]):
             if not s.get("late"):
                 self.objs[i] = self._obj(s, i)
+        if track:
+            # what every configuration and every rendering reads, and none may write: the defaults the palette classes declare
+            from ak import color
+            self.track("SYNTAX_DEFAULTS of the palette classes / BUILT_IN_CONFIG",
+                       [color.ColorsConfig.BUILT_IN_CONFIG] + [[c.__module__, c.__qualname__, c.__dict__.get("SYNTAX_DEFAULTS")]
+                                                               for c in _all_subclasses(color.Palette) if c.__module__.startswith("ak.")])
         for op in case["ops"][:upto]:
             if op[0] in STRUCT_OPS:
                 self.apply(op)
@@ -2288,6 +2325,24 @@ def _measures(r, kind):
             format(r, "_^%d" % (n + 5)), str(r[1:-1]), str(r[-4:])]
 
 
+_FL_STRICT = []
+
+
+def _fixed_len_strict():
+    """the exact-length case of result.fixed_len() is part of consumption mode 4 when KNOWN_FINDINGS.json lists the signature
+    fixed-len-returns-self for C10 (open: reported as KNOWN-FINDING; fixed: a regression is a violation) or VERIF_C10_FIXED_LEN=1"""
+    if not _FL_STRICT:
+        on = os.environ.get("VERIF_C10_FIXED_LEN") == "1"
+        try:
+            import json
+            kf = json.load(open(os.path.join(os.path.dirname(os.path.dirname(os.path.dirname(os.path.abspath(__file__)))), "KNOWN_FINDINGS.json")))
+            on = on or any(e.get("property") == "C10" and e.get("signature") == "fixed-len-returns-self" for e in kf.get("findings", []))
+        except Exception:  # noqa
+            pass
+        _FL_STRICT.append(on)
+    return _FL_STRICT[0]
+
+
 def _consume(r, mode, kind):
     from ak.color import CHText
     if kind == "rec":
@@ -2295,6 +2350,30 @@ def _consume(r, mode, kind):
 
     def by_line():
         return "\n".join(str(CHText(l)) for l in r)
+    if mode == 4:
+        # the result is USED as a text before it is printed: what these operations return belongs to the user, who goes on
+        # writing to it; the result must still print what it printed (aliasing of returned mutable objects)
+        t = r.get_ch_text()
+        t += " <t>"
+        u = r + " <u>"
+        u += "!"
+        v = "<v> " + r
+        v += "!"
+        x = r
+        x += " <x>"         # CHTextResult.__iadd__ hands out a new CHText
+        x += "!"
+        f = r.fixed_len(len(r) + 2)
+        f += "#"
+        f = r.fixed_len(max(len(r) - 1, 0))
+        f += "#"
+        sl = r[0:2]
+        sl += "#"
+        if _fixed_len_strict():
+            # candidate finding fixed-len-returns-self (see the notes): CHText.fixed_len(n) returns SELF when n == len, so
+            # result.fixed_len(len(result)) hands out the result's memoised text; only exercised once the finding is registered
+            e = r.fixed_len(len(r))
+            e += "#"
+        return [str(r), by_line()]
     if mode == 0:
         return [str(r)]
     if mode == 1:
@@ -2439,11 +2518,15 @@ def _run_history(case, w, klasses, log):
             if k in STRUCT_OPS:
                 w.apply(op)
             elif k == "newconf":
-                confs[op[1]] = color.ColorsConfig(dict(op[3]), no_color=op[2])
+                d = dict(op[3])
+                w.track(f"the dict passed to ColorsConfig() by op {len(recs)}", d)
+                confs[op[1]] = color.ColorsConfig(d, no_color=op[2])
             elif k == "drop":
                 del confs[op[1]]
             elif k == "reg":
-                confs[op[1]].add_new_items(dict(op[2]), "test")
+                d = dict(op[2])
+                w.track(f"the dict passed to add_new_items() by op {len(recs)}", d)
+                confs[op[1]].add_new_items(d, "test")
             elif k == "setglobal":
                 color.set_global_colors_config(confs[op[1]] if op[1] is not None else None)
             elif k == "render":
@@ -2733,7 +2816,7 @@ def _model_ops(case, obs):
             pa = op[4]
             cpa = f"(PObj {pa[1]})" if isinstance(pa, list) else {"none": "PNone", "synced": "PSynced"}[pa]
             copt = None if (isinstance(pa, list) or pa == "synced") else op[2]
-            out.append((f"ORender {_handle_obj(case, obs, op[1], 0, None, ep)} {SX.copt(copt, SX.cZ)} {SX.cbool(op[3])} {cpa} {op[5]} {ids}", texts))
+            out.append((f"ORender {_handle_obj(case, obs, op[1], 0, None, ep)} {SX.copt(copt, SX.cZ)} {SX.cbool(op[3])} {cpa} {min(op[5], 3)} {ids}", texts))
         elif k == "newh":
             # HCommand(level) does nothing to the world (the palette is looked up when help is printed): no model operation.
             # Should the constructor create a palette after all, the model is made to disagree (one text against none)
@@ -2756,7 +2839,7 @@ def _model_ops(case, obs):
                 out.append((f"ONext {100 + op[1]} {_handle_obj(case, obs, made[op[1]][0], pos[op[1]], 1, made[op[1]][1])} {SX.cZlist(lids)}", [t]))
                 pos[op[1]] += 1
         elif k == "whole":
-            out.append((f"OWholeH {100 + op[1]} {_handle_obj(case, obs, made[op[1]][0], 0, None, made[op[1]][1])} {op[2]} {ids}", texts))
+            out.append((f"OWholeH {100 + op[1]} {_handle_obj(case, obs, made[op[1]][0], 0, None, made[op[1]][1])} {min(op[2], 3)} {ids}", texts))
         # structural operations (build / set_fmt / remove_columns) render nothing and do nothing to the colours world: no model
         # operation; what they change is WHICH program a fresh process prints (the programs of the later epochs)
     return out
@@ -2925,7 +3008,7 @@ def oracle(case, obs):
         ref, ref_nc = rec["ref"], rec["ref_nc"]
         nocolor = op[0] == "render" and op[3]
         texts = rec.get("out", [])
-        if len(texts) == 2 and texts[0] != texts[1]:
+        if len(texts) == 2 and texts[0] != texts[1] and not (op[0] == "render" and op[5] == 4 and texts[0] == ref + "#" and texts[1] == ref):
             out.append(("whole-ne-lines", f"{where}: consuming the result by line and whole gives different texts: {texts[0]!r} vs {texts[1]!r}"))
         if ESC in ref_nc:
             out.append(("esc-in-no-color", f"{where}: no_color rendering contains an escape character: {ref_nc!r}"))
@@ -2943,6 +3026,8 @@ def oracle(case, obs):
             # the text depends on something else than object, format and configuration in force
             if op[0] == "help" and t == rec.get("ref_ctor"):
                 sig = "hdoc-captured-palette"
+            elif op[0] == "render" and op[5] == 4 and t == ref + "#" and texts[-1] == ref:
+                sig = "fixed-len-returns-self"
             elif op[0] == "render":
                 sig = _classify(case, obs, snaps, i, op[1], t, ref)
             else:
